@@ -886,7 +886,9 @@ impl gen::CELVisitorCompat<'_> for Parser {
 
     fn visit_String(&mut self, ctx: &StringContext<'_>) -> Self::Return {
         let token = ctx.tok.as_deref().expect("Has to have string!");
-        match parse::parse_string(&ctx.get_text()) {
+        let decoded = parse::parse_literal(&ctx.get_text(), false)
+            .map(|utf8| String::from_utf8_lossy(&utf8).into_owned());
+        match decoded {
             Ok(string) => self
                 .helper
                 .next_expr(token, Expr::Literal(Val::String(string))),
@@ -901,7 +903,7 @@ impl gen::CELVisitorCompat<'_> for Parser {
     fn visit_Bytes(&mut self, ctx: &BytesContext<'_>) -> Self::Return {
         let token = ctx.tok.as_deref().expect("Has to have bytes!");
         let string = ctx.get_text();
-        match parse::parse_bytes(&string[2..string.len() - 1]) {
+        match parse::parse_literal(&string, true) {
             Ok(bytes) => self
                 .helper
                 .next_expr(token, Expr::Literal(Val::Bytes(bytes))),
